@@ -10,6 +10,12 @@ for d in sorted(glob.glob(os.path.join(V, 'seeded', 'C*', '[a-z]'))):
         res = json.load(open(os.path.join(d, 'result.json')))
     except Exception as e:
         continue
+    # the latest run of the targeted check (tools/seedtest.py with SEEDTEST_OUT=result_current.json) replaces its column
+    try:
+        cur = json.load(open(os.path.join(d, 'result_current.json')))
+        res['checks'].update(cur['checks'])
+    except Exception:
+        pass
     name = os.path.relpath(d, os.path.join(V, 'seeded'))
     cells = []
     for pid in ids:
@@ -19,7 +25,7 @@ for d in sorted(glob.glob(os.path.join(V, 'seeded', 'C*', '[a-z]'))):
         elif c.get('kind') == 'oracle-violation': cells.append('**V**')
         else: cells.append('n')
     target = name.split('/')[0]
-    rows.append((name, meta.get('summary', '').replace('|', '/')[:150], cells, res['checks'].get(target, {}).get('rc', 0) != 0))
+    rows.append((name, meta.get('summary', '').replace('|', '/').replace('\n', ' ')[:110], cells, res['checks'].get(target, {}).get('rc', 0) != 0))
 out = ['| seeded change | what it does | ' + ' | '.join(i[1:] for i in ids) + ' |', '|---|---|' + '---|' * len(ids)]
 for name, summ, cells, ok in rows:
     out.append(f'| {name} | {summ} | ' + ' | '.join(cells) + ' |')
